@@ -57,8 +57,9 @@ struct VyukovAdapter {
   static bool push(Q& q, int op, int v) { return op == PUSH_S ? q.try_push_strong(v) : q.try_push_weak(v); }
   static bool pop(Q& q, int op, int& v) { return op == POP_S ? q.try_pop_strong(v) : q.try_pop_weak(v); }
 };
+template <unsigned Retries>
 struct NikolaevAdapter {
-  using Q = xenium::nikolaev_bounded_queue<int>;
+  using Q = xenium::nikolaev_bounded_queue<int, xenium::policy::pop_retries<Retries>>;
   static constexpr bool slack = true;
   static constexpr int nops = 2;
   static Q* make(int cap) { return new Q(cap); }
@@ -120,5 +121,6 @@ void bounded_test() {
 }
 
 XMC_TEST_FN("vyukov", (&bounded_test<VyukovAdapter>), "vyukov_bounded_queue, strong + weak operations");
-XMC_TEST_FN("nikolaev", (&bounded_test<NikolaevAdapter>), "nikolaev_bounded_queue");
+XMC_TEST_FN("nikolaev", (&bounded_test<NikolaevAdapter<1>>), "nikolaev_bounded_queue, pop_retries<1>");
+XMC_TEST_FN("nikolaev_p0", (&bounded_test<NikolaevAdapter<0>>), "nikolaev_bounded_queue, pop_retries<0>");
 } // namespace
